@@ -331,9 +331,15 @@ func segMonitor(ops, impl []string) []Violation {
 		}
 	}
 	malformed := false
+	var sealedReported, osMin, osMax uint64
+	osOK := false
+	sealedID := ""
 	for i, op := range ops {
 		ws := strings.Fields(op)
 		out := impl[i]
+		if ws[0] == "new" {
+			sealedID = ws[1]
+		}
 		if out == "panic" {
 			add("C11", "segment code panicked", op, i)
 			continue
@@ -370,6 +376,9 @@ func segMonitor(ops, impl []string) []Violation {
 				}
 			}
 		case "seal":
+			if strings.HasPrefix(out, "ok") {
+				sealedReported = atoiU(strings.Fields(out)[1])
+			}
 			if len(ws) > 1 && ws[1] != "n" && strings.HasPrefix(out, "err") {
 				faulted = true // ForceSeal failed on an injected fault and rolled back: nothing acknowledged may be lost
 			}
@@ -446,6 +455,28 @@ func segMonitor(ops, impl []string) []Violation {
 			f := strings.Fields(out)
 			if len(f) != 2 || f[0] != "2" || atoiU(f[1])%4 != 0 || atoiU(f[1]) == 0 {
 				add("C09", "the IndexStart the writer reports is not directly preceded by an index frame header", fmt.Sprintf("%s -> %s", op, out), i)
+			}
+		case "sealed":
+			if strings.HasPrefix(out, "true") {
+				sealedReported = atoiU(strings.Fields(out)[1])
+			}
+		case "opensealed":
+			// a sealed reader opened with the IndexStart the live writer reported, the file's own id, and [min, max]
+			osOK = out == "ok" && !malformed && atoiU(ws[6]) == sealedReported && sealedReported != 0 && sealedID == ws[1]
+			osMin, osMax = atoiU(ws[3]), atoiU(ws[4])
+		case "sget":
+			// read through the index block: an acknowledged entry inside [min, max] comes back as stored
+			if !osOK || malformed {
+				continue
+			}
+			idx := atoiU(ws[1])
+			if skipActive && idx > skipAbove {
+				continue
+			}
+			if want, ok := acked[idx]; ok && idx <= ackedLast && idx >= osMin && idx <= osMax {
+				if out != "ok "+want {
+					add("C02", "acknowledged entry not returned through the index the writer reported when it sealed the segment", fmt.Sprintf("sget %d = %s want ok %s (IndexStart %d)", idx, clipS(out), clipS(want), sealedReported), i)
+				}
 			}
 		case "get":
 			if malformed {
